@@ -520,7 +520,10 @@ func e2eSnapshot(root string) map[string]e2eEntry {
 		}
 		rel, _ := filepath.Rel(root, p)
 		e := e2eEntry{Rel: rel, Dir: info.IsDir(), MT: info.ModTime().UnixNano()}
-		if !info.IsDir() {
+		if info.Mode()&os.ModeSymlink != 0 {
+			tgt, _ := os.Readlink(p)
+			e.Sum = "symlink:" + tgt
+		} else if info.Mode().IsRegular() {
 			e.Size = info.Size()
 			if b, err := os.ReadFile(p); err == nil {
 				h := sha256.Sum256(b)
